@@ -43,7 +43,13 @@ func (e *Engine) Run(tape *core.Tape, o core.RunOpts) *core.Outcome {
 		h.sc.Clock = "free-running"
 	}
 	var panicMsg string
-	func() {
+	// The bubble is started from a goroutine of its own: when the race
+	// detector fires, the testing package fails the bubble's T and
+	// synctest.Test ends with t.FailNow(), i.e. runtime.Goexit of the calling
+	// goroutine - which must not be the worker loop.
+	done := make(chan struct{})
+	go func() {
+		defer close(done)
 		defer func() {
 			if r := recover(); r != nil {
 				panicMsg = fmt.Sprint(r)
@@ -57,6 +63,7 @@ func (e *Engine) Run(tape *core.Tape, o core.RunOpts) *core.Outcome {
 			}
 		})
 	}()
+	<-done
 	for _, v := range h.viol {
 		if v.Property == "INFRA" {
 			out.Infra = v.Clause + ": " + v.Detail
